@@ -19,9 +19,24 @@ def rel(name, types, inp=False, quals=None):
 
 def family(rng, idx):
     """returns (P, monotone?)"""
-    kind = rng.choice(["shortest", "shortest", "maxkey", "pareto", "lexmin", "nonmono", "downstream"])
+    kind = rng.choice(["shortest", "mutual", "mutual", "maxkey", "pareto", "lexmin", "nonmono", "downstream"])
     dom = {"i": [0, 1, 2], "s": ["a", "b"]}
-    if kind in ("shortest", "nonmono", "downstream"):
+    if kind == "mutual":
+        # the subsumptive relation shares its recursive stratum with a helper relation (mutual recursion through it);
+        # helper names sorting before AND after the subsumptive relation (the translator orders relations by name)
+        helper = rng.choice(["a_hop", "z_hop"])
+        bound = rng.choice([3, 4])
+        rels = [rel("e", ["i", "i"], True), rel("x", ["i", "i"], True), rel("d", ["i", "i"], quals=["btree_delete"]), rel(helper, ["i", "i"])]
+        clauses = [{"head": {"rel": "d", "args": [V("x"), N(0)]}, "body": [atom("e", V("x"), ANY), cmp("EQ", V("x"), N(0))]},
+                   {"head": {"rel": "d", "args": [V("y"), V("c2")]},
+                    "body": [atom("d", V("x"), V("c")), atom("e", V("x"), V("y")), cmp("LT", V("c"), N(bound)), cmp("EQ", V("c2"), F("ADD", V("c"), N(2)))]},
+                   {"head": {"rel": helper, "args": [V("y"), V("c2")]},
+                    "body": [atom("d", V("x"), V("c")), atom("x", V("x"), V("y")), cmp("LT", V("c"), N(bound)), cmp("EQ", V("c2"), F("ADD", V("c"), N(1)))]},
+                   {"head": {"rel": "d", "args": [V("x"), V("c")]}, "body": [atom(helper, V("x"), V("c"))]}]
+        sub = [{"rel": "d", "a1": [V("x"), V("c1")], "a2": [V("x"), V("c2")], "body": [cmp("LT", V("c2"), V("c1"))]}]
+        P = {"rels": rels, "clauses": clauses, "strata": [["e"], ["x"], ["d", helper]], "subsume": sub}
+        mono = True
+    elif kind in ("shortest", "nonmono", "downstream"):
         bound = rng.choice([2, 3, 4])
         rels = [rel("e", ["i", "i"], True), rel("d", ["i", "i", "i"], quals=["btree_delete"])]
         step = F("ADD", V("c"), N(1)) if kind != "nonmono" else F("MOD", F("ADD", F("MUL", V("c"), N(2)), N(1)), N(5))
